@@ -9,17 +9,29 @@ G  TLC enumerates every history of page kinds up to the bound with, per step, th
    parse tree / expansion / recorded messages must be equal.  A difference on a step
    the as-is model explains by a listed finding is a KNOWN-FINDING, any other a VIOLATION.
 V  seeded random longer histories (length <= 30) over the same catalogue.
+I  INVOCATION-level histories inside ONE page (ContextInvoke.tla): a page is no longer one atom.
+   G: TLC enumerates histories of 2-4 #invoke kinds (counter module, module requiring it, global
+   setter/readers, string patcher/reader, in-band failures, failures that end in an exception on the
+   Python side, nested failing invocations through frame:preprocess / frame:expandTemplate, page
+   breaks) with the outcome the specification demands of EVERY invocation (each top-level #invoke
+   starts from the initial module state); the harness runs each history on one page of a long-lived
+   real context in three renderings (one expand() per invocation, all in one text, through a
+   template) and compares every invocation.  The expected values come from TLC, not from a second run
+   of the real code (a fresh context shows the same wrong page).  V: random histories of 5-12
+   invocations with page breaks are recorded and replayed by Trace_ContextInvoke.
 """
 from __future__ import annotations
 
 import json
 import multiprocessing as mp
 import random
+import re
+import time
 from pathlib import Path
 
 import common
 import luastub
-from common import Outcome, Scratch, tlc
+from common import Outcome, Scratch, pmap, tlc
 
 PID = "C09"
 
@@ -170,12 +182,286 @@ def run_many(items, nproc=16):
         return pool.map(run_history, items, chunksize=1)
 
 
+# --------------------------------------------------------------------------
+# I: invocation-level histories inside one page (spec/ContextInvoke.tla)
+# --------------------------------------------------------------------------
+INV_MODULES = {
+    "Ctr": 'local p = {}\nlocal n = 0\nfunction p.bump(frame) n = n + 1 return "c=" .. n end\n'
+           'function p.bump2(frame) n = n + 1 n = n + 1 return "c=" .. n end\n'
+           'function p.peek(frame) return "c=" .. n end\nfunction p.inc() n = n + 1 return n end\nreturn p\n',
+    "Req": 'local p = {}\nfunction p.reqbump(frame) return "r=" .. require("Module:Ctr").inc() end\nreturn p\n',
+    "G": 'local p = {}\nfunction p.gset(frame) local b = tostring(MARK) MARK = "set" return "g=" .. b end\n'
+         'function p.gget(frame) return "g=" .. tostring(MARK) end\nreturn p\n',
+    "R": 'local p = {}\nfunction p.rget(frame) return "x=" .. tostring(MARK) end\nreturn p\n',
+    "Str": 'local p = {}\nfunction p.sset(frame) local b = tostring(string.leaked) string.leaked = "set" return "s=" .. b end\n'
+           'function p.sget(frame) return "s=" .. tostring(string.leaked) end\nreturn p\n',
+    "F": 'local p = {}\nfunction p.err(frame) error("boom") end\nfunction p.badutf(frame) return "\\255\\254" end\n'
+         'function p.loop(frame) while true do end end\nreturn p\n',
+    "Nil": "return nil\n",
+    "Syn": "local p = {\n",
+    "Bad": 'error("load boom")\n',
+    "N": 'local p = {}\n'
+         'function p.nest(frame) MARK = "set" return "n[" .. frame:preprocess("{{#invoke:" .. frame.args[1] .. "|" .. frame.args[2] .. "}}") .. "]" end\n'
+         'function p.tnest(frame) MARK = "set" return "n[" .. frame:expandTemplate{title = "Inv", args = {frame.args[1], frame.args[2]}} .. "]" end\n'
+         'return p\n',
+}
+# kind of ContextInvoke.tla -> (module, function) of the concrete #invoke
+INV_SIMPLE = {
+    "bump": ("Ctr", "bump"), "bump2": ("Ctr", "bump2"), "peek": ("Ctr", "peek"), "reqbump": ("Req", "reqbump"),
+    "gset": ("G", "gset"), "gget": ("G", "gget"), "rget": ("R", "rget"), "sset": ("Str", "sset"), "sget": ("Str", "sget"),
+    "nofn": ("F", "nofn"), "err": ("F", "err"), "loaderr": ("Bad", "f"), "nomod": ("Nomod", "f"), "nilmod": ("Nil", "f"),
+    "synmod": ("Syn", "f"), "badutf": ("F", "badutf"), "timeout": ("F", "loop"),
+}
+INV_PREFIX = {"bump": "c=", "bump2": "c=", "peek": "c=", "reqbump": "r=", "gset": "g=", "gget": "g=", "rget": "x=", "sset": "s=", "sget": "s="}
+INV_TIMEOUT = 0.05   # seconds; the sandbox clock has 1 s granules, so the loop is stopped within about a second
+INV_RENDERINGS = ("calls", "text", "tmpl")
+INV_SEP = " ; "
+
+
+def inv_inner(kind):
+    via, inner = kind.split("_", 1)
+    return ("nest" if via == "n" else "tnest"), inner
+
+
+def inv_text(kind, rendering):
+    if kind in INV_SIMPLE:
+        mod, fn = INV_SIMPLE[kind]
+        args = ""
+    else:
+        outer, inner = inv_inner(kind)
+        mod, fn = "N", outer
+        args = "|%s|%s" % INV_SIMPLE[inner]
+    if rendering == "tmpl":     # the #invoke sits in the body of a template (parent frame present)
+        return "{{Call|%s|%s%s}}" % (mod, fn, args)
+    return "{{#invoke:%s|%s%s}}" % (mod, fn, args)
+
+
+def inv_render(o, kind=None, res=None, v=None):
+    """Concrete text the model outcome stands for."""
+    kind = kind or o["k"]
+    res = res or o["res"]
+    v = o["v"] if v is None else v
+    if kind not in INV_SIMPLE:
+        _, inner = inv_inner(kind)
+        return "n[" + inv_render(o, inner, o["ires"], o["iv"]) + "]"
+    mod, fn = INV_SIMPLE[kind]
+    if res == "val":
+        return INV_PREFIX[kind] + v
+    if res == "empty":
+        return ""
+    word = "timeout" if res == "timeout" else "execution"
+    return '<strong class="error">Lua %s error in Module:%s function %s</strong>' % (word, mod, fn)
+
+
+_INV_ERR = re.compile(r'<strong class="error">Lua (execution|timeout) error in Module:(\w+) function (\w+)</strong>')
+
+
+def inv_abstract(kind, text):
+    """Observed text -> record shape of ContextInvoke!Out (V direction); anything unexpected -> res 'other'."""
+    def simple(k, t):
+        if t == "":
+            return "empty", ""
+        m = _INV_ERR.fullmatch(t)
+        if m:
+            if (m.group(2), m.group(3)) != INV_SIMPLE[k]:
+                return "other", t[:60]
+            return ("timeout" if m.group(1) == "timeout" else "err"), ""
+        pre = INV_PREFIX.get(k)
+        if pre and t.startswith(pre) and re.fullmatch(r"\w+", t[len(pre):]):
+            return "val", t[len(pre):]
+        return "other", t[:60]
+
+    if kind == "page":
+        return {"k": kind, "res": "page", "v": "", "ires": "none", "iv": ""}
+    if kind in INV_SIMPLE:
+        res, v = simple(kind, text)
+        return {"k": kind, "res": res, "v": v, "ires": "none", "iv": ""}
+    _, inner = inv_inner(kind)
+    if text.startswith("n[") and text.endswith("]"):
+        ires, iv = simple(inner, text[2:-1])
+        return {"k": kind, "res": "val", "v": "", "ires": ires, "iv": iv}
+    return {"k": kind, "res": "other", "v": text[:60], "ires": "none", "iv": ""}
+
+
+def inv_populate(path):
+    ctx = make_ctx(path)
+    luastub.install(ctx)
+    for name, src in INV_MODULES.items():
+        luastub.add_module(ctx, name, src)
+    ctx.add_page("Template:Inv", 10, body="{{#invoke:{{{1}}}|{{{2}}}}}")
+    ctx.add_page("Template:Call", 10, body="{{#invoke:{{{1}}}|{{{2}}}|{{{3|}}}|{{{4|}}}}}")
+    ctx.db_conn.commit()
+    ctx.db_conn.close()
+
+
+def inv_run_one(ctx, title, hist, rendering):
+    """One history on one page of ctx; returns the text of every invocation ('' for a page break)."""
+    ctx.start_page(title)
+    try:
+        if rendering == "calls":
+            out = []
+            for j, kind in enumerate(hist):
+                if kind == "page":
+                    ctx.start_page(title + "/%d" % j)
+                    out.append("")
+                else:
+                    out.append(ctx.expand(inv_text(kind, "calls"), timeout=INV_TIMEOUT if kind == "timeout" else None))
+            return out
+        text = INV_SEP.join(inv_text(k, rendering) for k in hist)
+        got = ctx.expand(text, timeout=INV_TIMEOUT if "timeout" in hist else None)
+        parts = got.split(INV_SEP)
+        return parts if len(parts) == len(hist) else ["UNSPLITTABLE " + got[:300]] * len(hist)
+    except Exception as e:  # noqa: BLE001
+        return ["EXCEPTION " + repr(e)[:300]] * len(hist)
+
+
+def inv_worker(chunk):
+    """chunk = [(dbdir, id, hist, rendering, expected-or-None)].  One long-lived context per chunk, one page
+    per history; a history whose result differs from the expectation is run again on a fresh context so
+    that the report can tell state kept inside the page from state kept across pages."""
+    common.use_repo()
+    import shutil
+
+    res = []
+    with Scratch("c09i-") as d:
+        shutil.copytree(chunk[0][0], d / "db")
+        ctx = make_ctx(d / "db" / "pages.db")
+        try:
+            for n, (_, hid, hist, rendering, expected) in enumerate(chunk):
+                got = inv_run_one(ctx, "Inv %s" % hid, hist, rendering)
+                again = None
+                if expected is not None and got != expected:
+                    shutil.copytree(chunk[0][0], d / ("f%d" % n))
+                    f = make_ctx(d / ("f%d" % n) / "pages.db")
+                    try:
+                        again = inv_run_one(f, "Inv %s" % hid, hist, rendering)
+                    finally:
+                        f.db_conn.close()
+                res.append((got, again))
+        finally:
+            ctx.db_conn.close()
+    return res
+
+
+INV_WHY_KEPT = ("; the as-coded model with the deviation EnvKeptOnAbort (the environment pushed on lua_env_stack by an "
+                "invocation that ends in an exception on the Python side -- missing / non-compiling / nil module, timeout, "
+                "non-UTF-8 result, also nested -- is not popped, so the following top-level invocations skip "
+                "_lua_reset_env) predicts exactly the observed outputs")
+
+
+def invocation_histories(o, tier, gen, demo):
+    """gen / demo: TLCResults of Gen_ContextInvoke_<tier>.cfg and Demo_ContextInvoke_envkept.cfg."""
+    thorough = tier == "thorough"
+    o.add_tlc("Gen_ContextInvoke (invocation histories on one page; law MeetsDemand)", gen)
+    o.extra["demo_envkept_violates_MeetsDemand"] = bool(demo.invariant_violated)
+    if not demo.invariant_violated:
+        raise common.TLCError("Demo_ContextInvoke_envkept lost its counterexample")
+    cases = gen.cases
+    if len(cases) < 1000:
+        raise common.TLCError("Gen_ContextInvoke produced only %d cases" % len(cases))
+    rng = random.Random(common.seed() * 67 + 909)
+    vkinds = sorted(set(INV_SIMPLE) - {"timeout"}) + ["n_nomod", "n_nilmod", "n_synmod", "n_badutf", "n_nofn", "n_err", "n_loaderr",
+                                                      "n_bump", "t_nomod", "t_badutf", "t_bump", "page"]
+    vh = [[rng.choice(vkinds) for _ in range(rng.randint(5, 12))] for _ in range(400 if thorough else 60)]
+    with Scratch("c09i-") as d:
+        dbdir = d / "base"
+        dbdir.mkdir()
+        inv_populate(dbdir / "pages.db")
+        # the solo behaviour of every kind (own page, fresh context) must match the model: the
+        # attribution of a difference to the HISTORY rests on it
+        kinds = sorted(set(INV_SIMPLE) | {k for c in cases for k in c["hist"] if k != "page"})
+        solo_items = [(dbdir, "solo-%s-%s" % (k, r), [k], r, None) for k in kinds for r in INV_RENDERINGS]
+        solo = {}
+        for (_, _, h, r, _), (got, _) in zip(solo_items, pmap(inv_worker, solo_items, chunk=1)):
+            solo[(h[0], r)] = got[0]
+        items = []
+        for n, c in enumerate(cases):
+            exp = [inv_render(x) if x["k"] != "page" else "" for x in c["out"]]
+            if "page" in c["hist"]:
+                rs = ("calls",)
+            elif thorough or len(c["hist"]) == 2:
+                rs = INV_RENDERINGS
+            else:       # quick: the longer histories take the renderings in turn
+                rs = (INV_RENDERINGS[n % len(INV_RENDERINGS)],)
+            for r in rs:
+                items.append((dbdir, "%d-%s" % (n, r), c["hist"], r, exp))
+        # slow (time limit) histories first, small chunks: they spread over the workers
+        items.sort(key=lambda it: "timeout" not in it[2])
+        results = pmap(inv_worker, items, chunk=max(1, len(items) // 128))
+        vitems = [(dbdir, "v%d" % n, h, "calls", None) for n, h in enumerate(vh)]
+        vres = pmap(inv_worker, vitems, chunk=max(1, len(vitems) // 16))
+    def judge(origin, hist, rendering, i, got, exp_i, again, kept_explains):
+        kind = hist[i]
+        case = {"origin": origin, "rendering": rendering, "history": hist[: i + 1], "invocation": inv_text(kind, rendering),
+                "got": got[i][:200], "model": exp_i[:200], "alone_on_a_fresh_page": str(solo.get((kind, rendering)))[:200],
+                "all_outputs": [g[:80] for g in got]}
+        if solo.get((kind, rendering)) != exp_i:
+            # the real code disagrees with the model already without any history: the model says more than
+            # the statement (rendering of a failure ...) or the defect is not one of C09
+            o.note_drift({"invocation_model_vs_code": case})
+            return
+        if again is None:
+            where = "the earlier invocations %r of the context" % (hist[:i],)
+        elif again[i] == got[i]:
+            where = "the earlier invocations %r of the SAME page (a fresh context running this page shows the same)" % (hist[:i],)
+        else:
+            where = "earlier pages of the context"
+        why = (f"invocation #{i + 1} ({kind}) of one page gives {got[i][:80]!r} where the specification demands {exp_i!r} (every top-level "
+               f"#invoke starts from the initial module state, and the same invocation alone gives exactly that): state left by {where} is visible to it")
+        if kept_explains:
+            why += INV_WHY_KEPT
+        o.violation(case, why, cls="invocation-history:" + ("EnvKeptOnAbort" if kept_explains else kind))
+
+    for (_, hid, hist, rendering, exp), (got, again) in zip(items, results):
+        o.evaluations += len(hist)
+        o.traces += 1
+        o.shape(("inv", rendering, tuple(hist)))
+        if got == exp:
+            continue
+        c = cases[int(hid.split("-")[0])]
+        kept = [inv_render(x) if x["k"] != "page" else "" for x in c["kept"]]
+        i = next(j for j in range(len(hist)) if got[j] != exp[j])
+        judge("I/G", hist, rendering, i, got, exp[i], again, bool(kept) and got == kept)
+
+    # V: the recorded random histories are replayed through the model by TLC
+    with Scratch("c09iv-") as dd:
+        tf = dd / "h.json"
+        tf.write_text(json.dumps([[inv_abstract(k, t) for k, t in zip(h, got)] for h, (got, _) in zip(vh, vres)]))
+        rv = tlc("Trace_ContextInvoke", "t.cfg", cfg_text="SPECIFICATION TSpec\nINVARIANT Emit\nCHECK_DEADLOCK FALSE\n",
+                 workers=1, env={"TRACE_FILE": str(tf)}, timeout=1800)
+    o.add_tlc("Trace_ContextInvoke", rv)
+    verdicts = {c["i"] - 1: c for c in rv.cases}
+    if len(verdicts) != len(vh):
+        raise common.TLCError("Trace_ContextInvoke judged %d of %d histories" % (len(verdicts), len(vh)))
+    for n, (h, (got, _)) in enumerate(zip(vh, vres)):
+        o.evaluations += len(h)
+        o.traces += 1
+        o.shape(("invV", tuple(h)))
+        vd = verdicts[n]
+        if not vd["law"]:
+            raise common.TLCError("ContextInvoke: MeetsDemand fails on %r without deviation" % (h,))
+        if vd["bad"]:
+            i = min(vd["bad"]) - 1
+            x = vd["exp"][i]
+            judge("I/V", h, "calls", i, got, inv_render(x) if x["k"] != "page" else "", None, bool(vd["keptExplains"]))
+    o.extra["invocation_histories"] = {"G_histories": len(cases), "G_runs": len(items), "renderings": list(INV_RENDERINGS),
+                                       "V_histories": len(vh), "kinds": len(kinds) + 1,
+                                       "histories_where_EnvKeptOnAbort_differs": sum(1 for c in cases if c["kept"])}
+    o.sample({"invocation_history": cases[len(cases) // 3]["hist"], "demanded": [inv_render(x) for x in cases[len(cases) // 3]["out"] if x["k"] != "page"]})
+
+
 def run(tier: str) -> int:
     o = Outcome(PID, tier)
     o.rule = "every history of page kinds up to MaxLen is one case (distinct by history); non-trivial = length >= 2"
     o.assumptions = ["each history runs in its own process so that module-level state starts fresh",
                      "Lua through offline stand-ins; the catalogue has one concrete page per page kind of Context.tla"]
     thorough = tier == "thorough"
+    # the TLC runs of the invocation-level engine go on in the background meanwhile
+    from concurrent.futures import ThreadPoolExecutor
+
+    bg = ThreadPoolExecutor(2)
+    f_gen = bg.submit(tlc, "Gen_ContextInvoke", "Gen_ContextInvoke_%s.cfg" % ("thorough" if thorough else "quick"), workers=1, timeout=3000)
+    f_demo = bg.submit(tlc, "Gen_ContextInvoke", "Demo_ContextInvoke_envkept.cfg", workers=1, check=False)
     r = tlc("Gen_Context", "MC_Context_ideal.cfg", workers=8, timeout=1800)
     o.add_tlc("MC_Context_ideal (NonInterference, all histories <= 4)", r)
     dmo = tlc("Gen_Context", "Demo_Context_asbuilt.cfg", workers=1, check=False)
@@ -228,6 +514,14 @@ def run(tier: str) -> int:
         compare(c["hist"], res, c["interferes"], "G")
     for j, (h, res) in enumerate(zip(extra, vres)):
         compare(h, res, vmodel[j], "V")
+    t_inv = time.time()
+    g_res, d_res = f_gen.result(), f_demo.result()
+    t_wait = time.time() - t_inv
+    invocation_histories(o, tier, g_res, d_res)
+    o.extra["invocation_histories"]["wall_s"] = {"waiting_for_TLC": round(t_wait, 1), "total": round(time.time() - t_inv, 1)}
+    bg.shutdown()
+    o.rule += ("; invocation level: every history of #invoke kinds on one page x rendering is one case "
+               "(distinct by history and rendering), all have length >= 2")
     o.exhaustive = True
     o.sample({"history": cases[len(cases) // 2]["hist"], "fresh_result_of_luaGlobal": json.dumps(fresh["luaGlobal"], default=str)[:200]})
     return o.finish()
